@@ -103,6 +103,13 @@ def build_server(own_cancelled_handler: bool = True):
     srv.register_tool("none", ret_none, {"type": "object"})
     srv.register_tool("bytes", ret_bytes, {"type": "object"})
     srv.register_tool("obj", ret_obj, {"type": "object"})
+    # tools whose (perfectly ordinary) return value has members named like those of a tool result
+    for tname, tval in RESULTISH_TOOLS.items():
+        def mk_ret(v):
+            async def ret(**kw):
+                return v
+            return ret
+        srv.register_tool(tname, mk_ret(tval), {"type": "object"})
     srv.register_tool("sync", sync_tool, {"type": "object"})
     srv.register_tool("caf\u00e9", echo, {"type": "object"})   # NFC; the NFD spelling is another (unknown) name
     for name, exc in (("raise_value", ValueError("bad \n value")), ("raise_key", KeyError("k")),
@@ -238,7 +245,11 @@ CUSTOM_RAISERS = ["custom/raise_noargs", "custom/raise_timeout", "custom/raise_a
                   "custom/raise_kind_callable_object", "custom/raise_kind_decorated", "custom/raise_kind_returns_task"]
 RAISING_TOOLS = {"raise_value", "raise_key", "raise_runtime", "raise_type", "raise_timeout", "raise_custom",
                  "raise_unicode", "sync", "raise_noargs", "raise_assert", "raise_lookup", "raise_badstr", "raise_cancelled_inner"}
-GOOD_TOOLS = {"echo", "dict", "list", "none", "bytes", "obj", "caf\u00e9"}
+RESULTISH_TOOLS = {"doc_text": {"title": "T", "content": "plain text"}, "doc_none": {"content": None},
+                   "doc_strings": {"content": ["a", "b"]}, "doc_number": {"content": 3, "isError": "no"},
+                   "doc_blocks": {"content": [{"type": "text", "text": "hello"}], "isError": False},
+                   "doc_structured": {"structuredContent": {"k": 1}, "content": []}, "doc_iserror": {"isError": True}}
+GOOD_TOOLS = {"echo", "dict", "list", "none", "bytes", "obj", "caf\u00e9"} | set(RESULTISH_TOOLS)
 
 IDS = [0, -1, 1, 2**53, 2**63, "", "x", "123", "007", "id with space", "ü\U0001f600"]
 
